@@ -402,7 +402,9 @@ class Project:
         if not (self.root / "LICENSES").is_dir():
             return license_files
 
-        directory = str(self.root / "LICENSES/**")
+        # The root is a path, not a pattern: a directory called 'proj[1]'
+        # must not be read as the pattern that matches 'proj1'.
+        directory = os.path.join(glob.escape(str(self.root)), "LICENSES", "**")
         for path_str in glob.iglob(directory, recursive=True):
             path = Path(path_str)
             # For some reason, LICENSES/** is resolved even though it
